@@ -33,7 +33,15 @@ fn write(out: &Path, specs: &[Spec], args: &Args, extra: Value) {
 /// Run the generator library in-process on one spec; digest of the emitted token stream.
 pub fn derive_tokens(spec: &Spec) -> Result<String, String> {
     use std::str::FromStr;
-    let mut src = format!("#[grammar_inline = {:?}]\n", spec.text);
+    let mut src = String::new();
+    if spec.family == "illformed_split" {
+        // one grammar source per rule: the derive accepts several #[grammar_inline] attributes
+        for line in spec.text.lines().filter(|l| !l.trim().is_empty()) {
+            src.push_str(&format!("#[grammar_inline = {:?}]\n", format!("{}\n", line)));
+        }
+    } else {
+        src.push_str(&format!("#[grammar_inline = {:?}]\n", spec.text));
+    }
     for o in &spec.options {
         src.push_str(&format!("#[{}]\n", o));
     }
@@ -115,8 +123,12 @@ fn main() {
                 cases.push((format!("mutation.{}", label), text));
             }
             let mut outv = vec![];
-            for (class, text) in cases {
-                let spec = Spec::new("x", "illformed", &text);
+            // every multi-rule case a second time, split into one grammar source per rule
+            let multi: Vec<(String, String)> = cases.iter().filter(|(_, t)| t.lines().filter(|l| !l.trim().is_empty()).count() >= 2 && t.lines().all(|l| l.trim().is_empty() || l.contains(" = "))).map(|(c, t)| (format!("split_sources.{}", c), t.clone())).collect();
+            let n_single = cases.len();
+            cases.extend(multi);
+            for (k, (class, text)) in cases.into_iter().enumerate() {
+                let spec = Spec::new("x", if k >= n_single { "illformed_split" } else { "illformed" }, &text);
                 let (panicked, msg, rust_ok) = match derive_tokens(&spec) {
                     Ok(t) => (false, String::new(), syn::parse_file(&t).is_ok()),
                     Err(e) => (true, e.chars().take(300).collect(), false),
